@@ -7,6 +7,7 @@ import Plenc.JSONAny
 import Plenc.Plenctag
 import Plenc.JSONOut
 import Plenc.Intern
+import Plenc.RegistryTrace
 /-
   Driver.Main — reads one op per line on stdin, runs the model's executable
   definitions, prints one canonical result line per op.  The Go harness runs the
@@ -112,6 +113,54 @@ def showTTField (f : Plenctag.Field) : String :=
   "(fd (n" ++ String.join (f.names.map fun n => " " ++ hexOfStr n) ++ ") " ++
     (match f.rawTag with | none => "none" | some t => hexOfStr t) ++ ")"
 
+/-- `(struct 2 3)`, `(ptr 1)`, `(slice 1)`, `(map 1 2)`, `(basic)`, `(bad)`. -/
+def parseTNode : Sexp → Option Registry.TNode
+  | .list [.atom "basic"] => some .basic
+  | .list [.atom "bad"] => some .bad
+  | .list [.atom "ptr", .atom e] => e.toNat?.map .ptr
+  | .list [.atom "slice", .atom e] => e.toNat?.map .slice
+  | .list [.atom "map", .atom k, .atom v] => do some (.map (← k.toNat?) (← v.toNat?))
+  | .list (.atom "struct" :: fs) => (fs.mapM fun (f : Sexp) => match f with | .atom a => a.toNat? | _ => none).map .struct
+  | _ => none
+
+def parseNats (l : List Sexp) : Option (List Nat) :=
+  l.mapM fun (f : Sexp) => match f with | .atom a => a.toNat? | _ => none
+
+def parseRegEv : Sexp → Option (Nat × Registry.Ev)
+  | .list [.atom t, .atom "L", .atom ty] => do some ((← t.toNat?), .load (← ty.toNat?))
+  | .list [.atom t, .atom "S", .atom ty] => do some ((← t.toNat?), .store (← ty.toNat?))
+  | _ => none
+
+def natSort (l : List Nat) : List Nat := (l.toArray.qsort (· < ·)).toList
+
+/-- `(regtrace (graph NODE…) (pre id…) (reqs (id…)…) (events (tid L|S id)…))`: the
+trace of shared-registry accesses recorded from the real run, replayed on
+`Registry` (C07.trace_replay_reach). -/
+def regTrace (graph pre reqs events : List Sexp) : String :=
+  match graph.mapM parseTNode, parseNats pre,
+        reqs.mapM (fun (r : Sexp) => match r with | .list l => parseNats l | _ => none),
+        events.mapM parseRegEv with
+  | some nodes, some pre, some reqs, some evs =>
+    let fuel := 100000
+    let s0 := Registry.startState nodes pre reqs fuel
+    (match Registry.conform fuel s0 evs 0 with
+     | .error (k, m) => s!"deviates at event {k}: {m}"
+     | .ok s =>
+       let n := reqs.length + 1
+       let sf := Registry.finish fuel s n
+       match (List.range n).find? fun i => !(sf.threads i).quiet with
+       | some i =>
+         (match Registry.sharedNext (sf.threads i) with
+          | some e => s!"deviates after the last event: the model's goroutine {i} still has `{e.show}` to do"
+          | none => s!"deviates after the last event: the model's goroutine {i} is not finished")
+       | none =>
+         let keys := natSort (sf.keys.filter fun k => !pre.contains k)
+         let res := (List.range reqs.length).map fun i =>
+           String.intercalate "," (((sf.threads (i + 1)).results.reverse).map fun r => if r.2.isSome then "ok" else "err")
+         let fault := (List.range n).any fun i => (sf.threads i).fault
+         s!"conforms keys={keys} results={res}" ++ (if fault then " FAULT" else ""))
+  | _, _, _, _ => "bad-op"
+
 /-- one op of a `world` script against the multi-instance model (Plenc/World.lean). -/
 def worldOp (w : World.World) (o : Sexp) : World.World × String :=
   let idx (a : String) : Nat := a.toNat?.getD 999
@@ -159,6 +208,8 @@ def runOp (s : Sexp) : String :=
   -- schedule is "every goroutine gets what it gets alone" (C07.use_never_sees_incomplete,
   -- result_agrees_with_sequential): the implementation must answer the same
   | .list (.atom "sched" :: _) => "same"
+  | .list [.atom "regtrace", _, .list (.atom "graph" :: graph), .list (.atom "pre" :: pre),
+           .list (.atom "reqs" :: reqs), .list (.atom "events" :: events)] => regTrace graph pre reqs events
   -- C19 concurrent: (internsched (reqs (xA…)…) (schedule…)): by C19.conc_finished every
   -- goroutine's results are its requests, under every schedule
   | .list [.atom "internsched", .list (.atom "reqs" :: ths), _] =>
